@@ -83,6 +83,17 @@ type PureFn struct {
 	Recursive bool
 }
 
+// Protect: a field that may only be accessed with the lock field of the same
+// object held (or before the object is published, or in the listed functions)
+type Protect struct {
+	Field    string
+	Lock     string
+	Unlocked map[string]bool
+	Text     string
+	st       types.Type
+	lockIdx  int
+}
+
 type ContractDB struct {
 	funcs    map[string]*Contract
 	pures    map[string]*PureFn
@@ -92,6 +103,8 @@ type ContractDB struct {
 	ghosts   map[string]Sort
 	lockinvs map[string]*Clause // "pkg.Type.field" -> invariant over `this`
 	protects map[string]string
+	protectList []*Protect
+	protectH    map[string]*Protect // by heap name, resolved lazily
 	nonnull  []string // heap designators whose loaded values are never nil (trusted type invariants)
 	nonnullH map[string]bool
 	scan     []string // trusted/abstract/axiom lines, reported in evidence
@@ -369,8 +382,20 @@ func (db *ContractDB) loadFile(path, pkg string) error {
 			db.nonnull = append(db.nonnull, rest)
 			db.scan = append(db.scan, "nonnull "+rest)
 		case "protect":
+			// protect <pkg>.<Type>.<field> by <lockfield> [unlocked <function> ...]
 			f := strings.Fields(rest)
-			db.protects[f[0]] = strings.Join(f[1:], " ")
+			if len(f) < 3 || f[1] != "by" {
+				return fmt.Errorf("%s: protect: expected `<pkg>.<Type>.<field> by <lockfield> [unlocked fn...]`: %q", path, l)
+			}
+			pr := &Protect{Field: f[0], Lock: f[2], Unlocked: map[string]bool{}, Text: rest}
+			for i := 3; i < len(f); i++ {
+				if f[i] == "unlocked" || f[i] == "readers" {
+					continue
+				}
+				pr.Unlocked[strings.TrimSuffix(f[i], ",")] = true
+			}
+			db.protectList = append(db.protectList, pr)
+			db.scan = append(db.scan, "protect "+rest)
 		case "axiom":
 			db.scan = append(db.scan, "axiom "+rest)
 		default:
